@@ -646,6 +646,186 @@ impl<'a, T, U, N: ArrayLength, F: Foreign1<&'a T, U>> ForeignIter<U> for RefMapP
                  'generate::<T, N, F>(default_)', ['old(default_).log().len() == 0'],
                  [('default-once-per-element', ['C08'], 'final(default_).log().len() == N::n() && forall|k: int| 0 <= k < N::n() ==> ret.elems()[k] == (#[trigger] final(default_).log()[k]).1')],
                  {'R-call': 1}, 1, ['C04', 'C08']))
+
+    # =====================================================================================================
+    # the remaining zip paths: one operand (or both) is a by-reference sequence, iterated as slice::Iter (rule R-pipe)
+    #   GenericArray::inverted_zip2   (self owned, lhs by reference; two needs_drop branches)      src/lib.rs
+    #   GenericSequence::inverted_zip  (trait default: self by reference, lhs owned)                src/sequence.rs
+    #   GenericSequence::inverted_zip2 (trait default: both by reference)                           src/sequence.rs
+    # =====================================================================================================
+    def gen_pipe(name, left_kind, right_kind, closure_body, ob_label, extra_inv=''):
+        """left/right kind: 'cons' (ArrayConsumer), 'plain' (unguarded Slots being moved out of), 'ref' (&Slots).
+        The closure receives the items of the zipped iterators as (l, r) = slot index k of each side."""
+        tyl = {'cons': 'ArrayConsumer<A, N>', 'plain': 'Slots<A, N>', 'ref': "&'a Slots<A, N>"}[left_kind]
+        tyr = {'cons': 'ArrayConsumer<B, N>', 'plain': 'Slots<B, N>', 'ref': "&'a Slots<B, N>"}[right_kind]
+        fa = "&'a A" if left_kind == 'ref' else 'A'
+        fb = "&'a B" if right_kind == 'ref' else 'B'
+        lt = "'a, " if 'ref' in (left_kind, right_kind) else ''
+        def side_inv(side, kind, e0):
+            if kind == 'cons':
+                return ('&&& self.%s.wf() &&& (self.k < N::n() ==> self.%s.position == self.k) &&& (self.k == N::n() ==> self.%s.position == N::n()) '
+                        '&&& forall|j: int| self.%s.position <= j < N::n() ==> (#[trigger] self.%s.array.view()[j]) == Some(self.%s@[j]) ' % (side, side, side, side, side, e0))
+            if kind == 'plain':
+                return ('&&& self.%s.ok() &&& forall|j: int| 0 <= j < N::n() ==> ((#[trigger] self.%s.view()[j]).is_some() <==> j >= self.k) '
+                        '&&& forall|j: int| self.k <= j < N::n() ==> (#[trigger] self.%s.view()[j]) == Some(self.%s@[j]) ' % (side, side, side, e0))
+            return ('&&& self.%s.ok() && self.%s.all_live() &&& forall|j: int| 0 <= j < N::n() ==> (#[trigger] self.%s.view()[j]) == Some(self.%s@[j]) ' % (side, side, side, e0))
+        def arg(kind, e0):
+            return ('*(%s)' if kind == 'ref' else '%s')
+        la = '*(#[trigger] self.f.log()[j]).0' if left_kind == 'ref' else '(#[trigger] self.f.log()[j]).0'
+        ra = '*self.f.log()[j].1' if right_kind == 'ref' else 'self.f.log()[j].1'
+        g.raw("""
+pub struct %(name)s<%(lt)sA, B, U, N: ArrayLength, F: Foreign2<%(fa)s, %(fb)s, U>> {
+    pub left: %(tyl)s, pub right: %(tyr)s, pub k: usize, pub f: F, pub nd_a: bool, pub nd_b: bool,
+    pub ret: Ghost<Seq<Option<U>>>, pub la0: Ghost<Seq<A>>, pub ra0: Ghost<Seq<B>>, pub _u: core::marker::PhantomData<U>,
+}
+impl<%(lt)sA, B, U, N: ArrayLength, F: Foreign2<%(fa)s, %(fb)s, U>> ForeignIter<U> for %(name)s<%(lt)sA, B, U, N, F> {
+    type K = (Seq<A>, Seq<B>);
+    open spec fn konst(&self) -> (Seq<A>, Seq<B>) { (self.la0@, self.ra0@) }
+    open spec fn returned(&self) -> Seq<Option<U>> { self.ret@ }
+    open spec fn hint(&self) -> (usize, Option<usize>) { ((N::n() - self.k) as usize, Some((N::n() - self.k) as usize)) }
+    open spec fn inv(&self) -> bool {
+        &&& self.k <= N::n() && self.la0@.len() == N::n() && self.ra0@.len() == N::n()
+        %(linv)s
+        %(rinv)s
+        %(extra)s
+        &&& self.f.log().len() == self.k
+        &&& forall|j: int| 0 <= j < self.k ==> %(la)s == self.la0@[j] && %(ra)s == self.ra0@[j]
+        &&& self.ret@.len() >= self.k
+        &&& forall|j: int| 0 <= j < self.k ==> (#[trigger] self.ret@[j]) == Some(self.f.log()[j].2)
+        &&& forall|j: int| self.k <= j < self.ret@.len() ==> (#[trigger] self.ret@[j]).is_none()
+        &&& (self.ret@.len() > self.k ==> self.k == N::n())
+    }
+    fn next(&mut self) -> (r: Option<U>)
+    {
+        // Zip of two iterators over N items each
+        if self.k >= N::usize_() {
+            proof { self.ret = Ghost(self.ret@.push(None)); }
+            return None;
+        }
+        let l = self.k;
+        let r = self.k;
+        self.k += 1;
+""" % dict(name=name, lt=lt, fa=fa, fb=fb, tyl=tyl, tyr=tyr, linv=side_inv('left', left_kind, 'la0'), rinv=side_inv('right', right_kind, 'ra0'),
+           extra=extra_inv, la=la, ra=ra))
+        g.raw(ex.pretty(closure_body))
+        g.raw("""    }
+    fn size_hint(&self) -> (r: (usize, Option<usize>)) { (N::usize_() - self.k, Some(N::usize_() - self.k)) }
+}
+""")
+
+    def unwind(conds, label):
+        return ' proof { assert(%s) /*OB:%s:C04*/; } ' % (conds, label)
+
+    ZIP_ENS = [('never-the-length-panic', ['C08'], 'ret.0 is Ret'),
+               ('once-per-index', ['C08'], 'ret.1.log().len() == N::n()'),
+               ('result-k-at-index-k', ['C08'], 'forall|k: int| 0 <= k < N::n() ==> (#[trigger] ret.0->Ret_0.elems()[k]) == ret.1.log()[k].2')]
+    POSTP = ('proof { assert(pipe.k == N::n()); assert(pipe.la0@ == la0 && pipe.ra0@ == ra0); '
+             'assert forall|k: int| 0 <= k < N::n() implies (#[trigger] r->Ret_0.elems()[k]) == pipe.f.log()[k].2 by { '
+             'assert(pipe.returned()[k] == Some(r->Ret_0.elems()[k])); assert(pipe.ret@[k] == Some(pipe.f.log()[k].2)); } } ')
+
+    # ---- (1) GenericArray::inverted_zip2: self owned (right operand, element type T), lhs by reference (element type B) ----
+    f = g.extract_method('src/lib.rs', 'unsafe impl<T, N: ArrayLength> GenericSequence<T> for GenericArray<T, N>', 'inverted_zip2')
+    body = ex.normalize(f['body'])
+    n = ex.statements(body)
+    stats = {}
+    body = ex.apply_rules(body, [
+        ('R-misc', r'\bunsafe \{', '{'),
+        ('R-len', r'mem::needs_drop::<T>\(\)', 'nd_t'),
+        ('R-mutself', r'let mut right = ArrayConsumer::new\(self\);', 'let right = ArrayConsumer::new(this);'),
+        ('R-guard', r'let \(right_array_iter, right_position\) = right\.iter_position\(\); ', ''),
+        ('R-slots', r'let right = ManuallyDrop::new\(self\);', 'let right = this.slots;'),
+    ], stats)
+    m1 = re.search(r'FromIterator::from_iter\(right_array_iter\.zip\(lhs\)\.map\(\|\(r, left_value\)\| \{ (.*?) f\(left_value, right_value\) \}\)\)', body)
+    m2 = re.search(r'FromIterator::from_iter\(right\.iter\(\)\.zip\(lhs\)\.map\(\|\(r, left_value\)\| \{ f\(left_value, ptr::read\(r\)\) \}\)\)', body)
+    if not m1 or not m2:
+        raise ex.Unsupported('inverted_zip2: pipelines not found in the expected form (rule R-pipe)')
+    inner = m1.group(1)
+    for pat, rep in [(r'ptr::read\(r\)', 'self.right.array.take(r)'), (r'\*right_position', 'self.right.position')]:
+        inner, k = re.subn(pat, rep, inner)
+        if k < 1:
+            raise ex.Unsupported('inverted_zip2: closure body lacks %s' % pat)
+    stats.update({'R-pipe': 2, 'R-read': 2, 'R-foreign': 2, 'R-drop': 1})
+    # NB: in this function the by-reference operand is `lhs` (the LEFT argument of f) and the owned `self` is the right one
+    gen_pipe('Zip2Pipe', 'ref', 'cons', 'let left_value = self.left.peek(l); ' + inner + unwind('self.right.wf()', 'inverted_zip2.unwind@closure') +
+             'let __r = self.f.call(left_value, right_value); proof { self.ret = Ghost(self.ret@.push(Some(__r))); } Some(__r)', 'x')
+    gen_pipe('Zip2PlainPipe', 'ref', 'plain', 'let left_value = self.left.peek(l); let __b = self.right.take(r);' +
+             unwind('!self.nd_b || self.right.all_dead()', 'inverted_zip2.unwind@closure-unguarded-block-holds-nothing-that-needs-drop') +
+             'let __r = self.f.call(left_value, __b); proof { self.ret = Ghost(self.ret@.push(Some(__r))); } Some(__r)', 'x', extra_inv='&&& !self.nd_b')
+    pipe1 = ('{ let mut pipe = Zip2Pipe { left: lhs, right: right, k: 0, f: f, nd_a: false, nd_b: nd_t, ret: Ghost(Seq::empty()), la0: Ghost(la0), ra0: Ghost(ra0), _u: core::marker::PhantomData }; '
+             'proof { assert(pipe.inv()); } let r = from_iter::<U, N, Zip2Pipe<B, T, U, N, F>>(&mut pipe); ' + POSTP.replace('assert(pipe.k == N::n());', 'assert(pipe.k == N::n()); assert(pipe.right.position == N::n());') +
+             'let Zip2Pipe { left: _, right, k: _, f, nd_a: _, nd_b: _, ret: _, la0: _, ra0: _, _u: _ } = pipe; let mut right = right; right.drop_impl(); (r, f) }')
+    pipe2 = ('{ let mut pipe = Zip2PlainPipe { left: lhs, right: right, k: 0, f: f, nd_a: false, nd_b: nd_t, ret: Ghost(Seq::empty()), la0: Ghost(la0), ra0: Ghost(ra0), _u: core::marker::PhantomData }; '
+             'proof { assert(pipe.inv()); } let r = from_iter::<U, N, Zip2PlainPipe<B, T, U, N, F>>(&mut pipe); ' + POSTP +
+             'let Zip2PlainPipe { left: _, right, k: _, f, nd_a: _, nd_b: _, ret: _, la0: _, ra0: _, _u: _ } = pipe; '
+             'right.scope_exit_unowned() /*OB:inverted_zip2.nothing-live-leaves-scope-unowned:C03*/; (r, f) }')
+    m1 = re.search(r'FromIterator::from_iter\(right_array_iter\.zip\(lhs\)\.map\(\|\(r, left_value\)\| \{ .*? f\(left_value, right_value\) \}\)\)', body)
+    body = body[:m1.start()] + pipe1 + body[m1.end():]
+    m2 = re.search(r'FromIterator::from_iter\(right\.iter\(\)\.zip\(lhs\)\.map\(\|\(r, left_value\)\| \{ f\(left_value, ptr::read\(r\)\) \}\)\)', body)
+    body = body[:m2.start()] + pipe2 + body[m2.end():]
+    body = 'let ghost la0 = Seq::new(N::n() as nat, |k: int| lhs.view()[k].unwrap()); let ghost ra0 = this.elems(); ' + body
+    ex.check_supported('inverted_zip2', body)
+    g.emit_fn(Fn('inverted_zip2', 'src/lib.rs', f['line'], f['sig'],
+                 "pub fn inverted_zip2<'a, B, T, U, N: ArrayLength, F: Foreign2<&'a B, T, U>>(this: GenericArray<T, N>, lhs: &'a Slots<B, N>, f: F, nd_t: bool) -> (ret: (PanicOr<GenericArray<U, N>>, F))", body,
+                 ['this.slots.ok()', 'this.slots.all_live()', 'lhs.ok()', 'lhs.all_live()', 'f.log().len() == 0'],
+                 ZIP_ENS + [('pairs-ascending', ['C08'], 'forall|k: int| 0 <= k < N::n() ==> *(#[trigger] ret.1.log()[k]).0 == lhs.view()[k].unwrap() && ret.1.log()[k].1 == this.elems()[k]')],
+                 stats, n, ['C03', 'C04', 'C08']))
+
+    # ---- (2) trait default GenericSequence::inverted_zip: self by reference (right operand), lhs owned ----
+    stext = g.src('src/sequence.rs')
+    mt = re.search(r'pub unsafe trait GenericSequence<T>: Sized \+ IntoIterator\s*\{', stext)
+    if not mt:
+        raise ex.LostAnchor('trait GenericSequence not found')
+    ti = mt.end() - 1
+    tblock = stext[ti + 1:ex.match_brace(stext, ti)]
+    f = ex.find_fn(tblock, 'inverted_zip', ti + 1, stext)
+    body = ex.normalize(f['body'])
+    n = ex.statements(body)
+    stats = {}
+    body = ex.apply_rules(body, [
+        ('R-misc', r'\bunsafe \{', '{'),
+        ('R-mutself', r'let mut left = ArrayConsumer::new\(lhs\);', 'let left = ArrayConsumer::new(lhs);'),
+        ('R-guard', r'let \(left_array_iter, left_position\) = left\.iter_position\(\); ', ''),
+    ], stats)
+    m1 = re.search(r'FromIterator::from_iter\(left_array_iter\.zip\(self\)\.map\(\|\(l, right_value\)\| \{ (.*?) f\(left_value, right_value\) \}\)\)', body)
+    if not m1:
+        raise ex.Unsupported('default inverted_zip: pipeline not found in the expected form (rule R-pipe)')
+    inner = m1.group(1)
+    for pat, rep in [(r'ptr::read\(l\)', 'self.left.array.take(l)'), (r'\*left_position', 'self.left.position')]:
+        inner, k = re.subn(pat, rep, inner)
+        if k < 1:
+            raise ex.Unsupported('default inverted_zip: closure body lacks %s' % pat)
+    stats.update({'R-pipe': 1, 'R-read': 1, 'R-foreign': 1, 'R-drop': 1})
+    gen_pipe('ZipRefRightPipe', 'cons', 'ref', 'let right_value = self.right.peek(r); ' + inner + unwind('self.left.wf()', 'inverted_zip_default.unwind@closure') +
+             'let __r = self.f.call(left_value, right_value); proof { self.ret = Ghost(self.ret@.push(Some(__r))); } Some(__r)', 'x')
+    pipe = ('{ let mut pipe = ZipRefRightPipe { left: left, right: this, k: 0, f: f, nd_a: false, nd_b: false, ret: Ghost(Seq::empty()), la0: Ghost(la0), ra0: Ghost(ra0), _u: core::marker::PhantomData }; '
+            'proof { assert(pipe.inv()); } let r = from_iter::<U, N, ZipRefRightPipe<B, T, U, N, F>>(&mut pipe); ' + POSTP.replace('assert(pipe.k == N::n());', 'assert(pipe.k == N::n()); assert(pipe.left.position == N::n());') +
+            'let ZipRefRightPipe { left, right: _, k: _, f, nd_a: _, nd_b: _, ret: _, la0: _, ra0: _, _u: _ } = pipe; let mut left = left; left.drop_impl(); (r, f) }')
+    body = body[:m1.start()] + pipe + body[m1.end():]
+    body = 'let ghost la0 = lhs.elems(); let ghost ra0 = Seq::new(N::n() as nat, |k: int| this.view()[k].unwrap()); ' + body
+    ex.check_supported('inverted_zip_default', body)
+    g.emit_fn(Fn('inverted_zip_default', 'src/sequence.rs', f['line'], f['sig'],
+                 "pub fn inverted_zip_default<'a, B, T, U, N: ArrayLength, F: Foreign2<B, &'a T, U>>(this: &'a Slots<T, N>, lhs: GenericArray<B, N>, f: F) -> (ret: (PanicOr<GenericArray<U, N>>, F))", body,
+                 ['this.ok()', 'this.all_live()', 'lhs.slots.ok()', 'lhs.slots.all_live()', 'f.log().len() == 0'],
+                 ZIP_ENS + [('pairs-ascending', ['C08'], 'forall|k: int| 0 <= k < N::n() ==> (#[trigger] ret.1.log()[k]).0 == lhs.elems()[k] && *ret.1.log()[k].1 == this.view()[k].unwrap()')],
+                 stats, n, ['C03', 'C04', 'C08']))
+
+    # ---- (3) trait default GenericSequence::inverted_zip2: both operands by reference ----
+    f = ex.find_fn(tblock, 'inverted_zip2', ti + 1, stext)
+    body = ex.normalize(f['body'])
+    n = ex.statements(body)
+    if body != 'FromIterator::from_iter(lhs.into_iter().zip(self).map(|(l, r)| f(l, r)))':
+        raise ex.Unsupported('default inverted_zip2 is not `from_iter(lhs.into_iter().zip(self).map(|(l, r)| f(l, r)))` (rule R-pipe)')
+    gen_pipe('ZipRefRefPipe', 'ref', 'ref', 'let __a = self.left.peek(l); let __b = self.right.peek(r); let __r = self.f.call(__a, __b); '
+             'proof { self.ret = Ghost(self.ret@.push(Some(__r))); } Some(__r)', 'x')
+    body = ('let ghost la0 = Seq::new(N::n() as nat, |k: int| lhs.view()[k].unwrap()); let ghost ra0 = Seq::new(N::n() as nat, |k: int| this.view()[k].unwrap()); '
+            'let mut pipe = ZipRefRefPipe { left: lhs, right: this, k: 0, f: f, nd_a: false, nd_b: false, ret: Ghost(Seq::empty()), la0: Ghost(la0), ra0: Ghost(ra0), _u: core::marker::PhantomData }; '
+            'proof { assert(pipe.inv()); } let r = from_iter::<U, N, ZipRefRefPipe<B, T, U, N, F>>(&mut pipe); ' + POSTP +
+            'let ZipRefRefPipe { left: _, right: _, k: _, f, nd_a: _, nd_b: _, ret: _, la0: _, ra0: _, _u: _ } = pipe; (r, f)')
+    g.emit_fn(Fn('inverted_zip2_default', 'src/sequence.rs', f['line'], f['sig'],
+                 "pub fn inverted_zip2_default<'a, B, T, U, N: ArrayLength, F: Foreign2<&'a B, &'a T, U>>(this: &'a Slots<T, N>, lhs: &'a Slots<B, N>, f: F) -> (ret: (PanicOr<GenericArray<U, N>>, F))", body,
+                 ['this.ok()', 'this.all_live()', 'lhs.ok()', 'lhs.all_live()', 'f.log().len() == 0'],
+                 ZIP_ENS + [('pairs-ascending', ['C08'], 'forall|k: int| 0 <= k < N::n() ==> *(#[trigger] ret.1.log()[k]).0 == lhs.view()[k].unwrap() && *ret.1.log()[k].1 == this.view()[k].unwrap()')],
+                 {'R-pipe': 1, 'R-foreign': 1}, n, ['C04', 'C08']))
     g.raw('proof fn canary() { assert(false); } /*OB:canary:*/')
     g.raw('} // verus!\nfn main() {}\n')
 
